@@ -461,7 +461,14 @@ func checkC06Instance(c *Ctx, r *Rule) {
 		r.Check(calls, gi.Name(), "clone arm", gi.Body.Pos(), "clone == 2 arm copies the parent statement with clone()", "getInstance never clones the parent statement")
 	}
 
-	// Session: stores to Statement fields only after tx.Statement was replaced by a clone
+	checkSessionStores(c, r, nil)
+}
+
+// checkSessionStores: Session stores to Statement fields only after tx.Statement was replaced by a clone
+// (only != nil restricts the rule to the named fields; used by C18 for Context).
+func checkSessionStores(c *Ctx, r *Rule, only map[string]bool) {
+	p := c.P
+	stmtT := p.Named(pkgGorm, "Statement")
 	sess := p.MethodDecl(pkgGorm, "DB", "Session")
 	c.Touch(sess)
 	sinfo := sess.Pkg.TypesInfo
@@ -505,6 +512,9 @@ func checkC06Instance(c *Ctx, r *Rule) {
 				continue
 			}
 			if tv, ok := sinfo.Types[sel.X]; !ok || !p.isNamedPtr(tv.Type, stmtT) {
+				continue
+			}
+			if only != nil && !only[sel.Sel.Name] {
 				continue
 			}
 			n++
